@@ -129,13 +129,45 @@ def main():
     return _MAIN
 
 
+def config_context(order):
+    """The context snaxc builds from a hardware configuration file (tools/config_parser.parse_config, real code): one cluster
+    whose cores carry the accelerators named in `order` ("xdma" / "alu"), one core each, plus the dialects.  dacite (the
+    library that turns the parsed YAML into the repo's config dataclasses) is not installed: the dataclasses are built directly
+    and a pass-through stands in for `dacite.from_dict`."""
+    import types
+
+    m = main()
+    if "dacite" not in sys.modules:
+        d = types.ModuleType("dacite")
+        d.from_dict = lambda data_class, data, config=None: data
+        dc = types.ModuleType("dacite.config")
+        dc.Config = d.Config = type("Config", (), {"__init__": lambda self, **kw: None})
+        sys.modules["dacite"], sys.modules["dacite.config"] = d, dc
+    from snaxc.tools import configs as C
+    from snaxc.tools.config_parser import parse_config
+
+    wrap = {"xdma": lambda: C.SnaxXdmaWrapper(None), "alu": lambda: C.SnaxAluWrapper(None)}
+    system = C.SystemConfig(
+        memory=C.SnaxMemoryConfig("L3", 0x80000000, 10**9),
+        clusters=[C.ClusterConfig(memory=C.SnaxMemoryConfig("L1", 0x10000000, 100000), cores=[C.CoreConfig([wrap[k]()]) for k in order])],
+    )
+    ctx = parse_config(system)
+    for name in m.ctx.registered_dialect_names:
+        ctx.register_dialect(name, (lambda n=name: m.ctx.get_dialect(n)))
+    return ctx
+
+
 def parse(src: str, verify: bool = True, bind: dict | None = None):
     """`bind`: further accelerator names of this compilation only (name -> "xdma" | "alu"): the registry belongs to the
     context, one process compiles for differently configured clusters one after the other."""
     from xdsl.parser import Parser
 
     m = main()
-    ctx = m.ctx.clone()
+    if bind and "__config__" in bind:
+        ctx = config_context(bind["__config__"])
+        bind = None
+    else:
+        ctx = m.ctx.clone()
     for name, kind in sorted((bind or {}).items()):
         if kind == "xdma":
             from snaxc.accelerators.snax_xdma import SNAXXDMAAccelerator
